@@ -36,12 +36,15 @@ def amp_spectrum(x):
     return np.abs(np.fft.rfft(x, axis=-1))
 
 
-def spectrum_dev(out, orig):
+def spectrum_dev(out, orig, full=False):
     """Max relative deviation of the amplitude spectrum at the non-zero,
-    non-Nyquist frequencies."""
+    non-Nyquist frequencies (all frequencies if `full`)."""
     T = orig.shape[-1]
     hi = (T + 1) // 2            # exclusive: 1 .. ceil(T/2)-1
-    a, b = amp_spectrum(out)[..., 1:hi], amp_spectrum(orig)[..., 1:hi]
+    lo = 1
+    if full:
+        lo, hi = 0, T // 2 + 1
+    a, b = amp_spectrum(out)[..., lo:hi], amp_spectrum(orig)[..., lo:hi]
     if a.size == 0:
         return 0.0
     scale = float(np.max(amp_spectrum(orig))) or 1.0
